@@ -13,6 +13,7 @@ from __future__ import annotations
 
 import json
 import math
+import os
 import struct
 
 from vlib.common import cbool, clist, cnat, cz
@@ -21,7 +22,9 @@ ID = "C08"
 PROPERTIES_V = "theories/Properties/C08.v"
 CASE_IMPORTS = "From GV Require Import Prelude.Base Model.Codec Model.RefMap."
 ALLOWED_AXIOMS: list = []
-MODEL_VER = "Repaired"  # the model follows the code with fixes/C08-*.patch applied
+# The model follows the code with fixes/C08-*.patch applied.  C08_MODEL_VER=Old ties the pre-repair transcription (the subject of
+# the *_old_refuted theorems) to an unpatched tree instead.
+MODEL_VER = "Old" if os.environ.get("C08_MODEL_VER") == "Old" else "Repaired"
 REFUTED = [
     "C08_int_old_refuted (pre-repair IntegerData.format_type: int64 2^31 accepted and stored as -2^31; repaired by fixes/C08-int32-wrap.patch)",
     "C08_complex_old_refuted (pre-repair FloatData.format_type: 1+2j accepted and stored as 1.0; repaired by fixes/C08-complex-imag-dropped.patch)",
